@@ -501,7 +501,7 @@ func TestC14(t *testing.T) {
 		run(rp, t.Fatalf)
 		return
 	}
-	if shardNo() == 0 {
+	if firstShard() {
 		for _, rf := range regressFiles("TestC14") {
 			var c APICase
 			if err := loadCaseFile(rf, &c); err != nil {
